@@ -7,6 +7,15 @@ ENGINES = [
 NOT_APPLICABLE = {}
 _NOTE = 'Trusted base: compiler + sanitizer runtimes, the engine in harness/engine.h, and the independent reference oracle named in the technique (self-tested at every start). Verdict is "held on everything explored", not absence.'
 TEXT = {
+ 'C03': dict(engine='pbt (stateful / model-based)', design_ref='DESIGN.md 5/C03',
+   technique='model-based property testing: generated request scripts executed against the real object scope and compared with the document as a map',
+   level_text='~1.6*10^5 generated (document, request script, archive, stream kind, alignment) cases per quick run: each request must return exactly the stored value, absent keys must report not-loaded and leave int / string / optional / atomic / unique_ptr targets in the documented state, partly read child arrays and objects and early stops must leave the reader positioned so that the sentinel behind the object still loads; the whole script shrinks as one value.',
+   level_note=_NOTE),
+ 'C05': dict(engine='pbt', design_ref='DESIGN.md 5/C05',
+   technique='metamorphic property-based testing: document with injected offences vs the clean document under the Skip policies',
+   level_text='~1.6*10^5 generated cases per quick run: every non-offended leaf must equal the clean load, every offended position must keep its sentinel, sequence lengths must be unchanged, data behind the tree must still load, and Required validators must fire for exactly the skipped fields; all four archives from memory and streams under ASan/UBSan.',
+   level_note=_NOTE),
+
  'C09': dict(engine='pbt', design_ref='DESIGN.md 5/C09',
    technique='property-based testing in both directions against an independent strict RFC 4180 parser and free-choice writer',
    level_text='~2*10^5 generated tables per quick run: what the library writes (decoded per configured encoding/BOM) must parse under a strict RFC 4180 reference into exactly the original header and cells; what an independent writer renders with random quoting, LF/CRLF, final break and column order must load (by name, into maps and a typed struct with a different request order) to the same rows from memory and from encoded streams; records with a wrong field count must be rejected with ParsingError.',
